@@ -188,12 +188,118 @@ pub fn run_config_text(t: &str) -> &'static str {
     }
 }
 
+/// text as an introspection result (`schema: ./schema.json`): read, then checked against and printed like any schema
+pub fn run_introspection_text(t: &str) -> &'static str {
+    let schema: Schema<Cow<str>, Pos> = match nitrogql_introspection::schema_from_introspection_json(t) {
+        Ok(s) => s,
+        Err(_) => return "introspection:rejected",
+    };
+    let ast = nitrogql_semantics::type_system_to_ast(&schema);
+    let mut cfg = pipeline::default_config();
+    for s in ["Date", "Version"] {
+        cfg.generate.r#type.scalar_types.insert(s.into(), nitrogql_config_file::ScalarTypeConfig::Single("string".into()));
+    }
+    let _ = pipeline::schema_dts(&ast, &cfg);
+    let _ = pipeline::resolvers_dts(&ast, &cfg, "./schema.js");
+    let _ = pipeline::server_graphql(&ast);
+    // operations that touch every kind of type of the base schema: each is checked on its own and printed when accepted
+    let mut any = false;
+    for op in ["query { __typename }", "query Q($i: In, $l: [Int!]! = [2]) { a(x: $i, l: $l) { id ... on T { k } } u { __typename ... on T { id k } } }", "query R { a(l: [1], x: {k: B, n: {k: A}}) { __typename id } }"] {
+        let ops = vec![(PathBuf::from("/p/src/a.graphql"), op.to_string())];
+        if let Ok(loaded) = pipeline::load_operations(&ops, 1) {
+            if pipeline::check_operations(&schema, &loaded).is_ok() {
+                for (_, doc, _, _) in &loaded {
+                    let _ = pipeline::operation_dts(&schema, doc, &cfg, "./schema.js");
+                }
+                any = true;
+            }
+        }
+    }
+    if any { "introspection:read/checked" } else { "introspection:read" }
+}
+
+/// single edits of a JSON document: at every node - removed (object members / array items), replaced by null, by a
+/// value of every other JSON kind, strings emptied or replaced by a name that exists nowhere
+fn json_edits(base: &J, mut f: impl FnMut(String)) {
+    fn paths(v: &J, cur: &mut Vec<String>, out: &mut Vec<Vec<String>>) {
+        out.push(cur.clone());
+        match v {
+            J::Object(m) => {
+                for (k, x) in m {
+                    cur.push(k.clone());
+                    paths(x, cur, out);
+                    cur.pop();
+                }
+            }
+            J::Array(a) => {
+                for (i, x) in a.iter().enumerate() {
+                    cur.push(i.to_string());
+                    paths(x, cur, out);
+                    cur.pop();
+                }
+            }
+            _ => {}
+        }
+    }
+    fn at<'a>(v: &'a mut J, path: &[String]) -> Option<&'a mut J> {
+        let mut cur = v;
+        for p in path {
+            cur = match cur {
+                J::Object(m) => m.get_mut(p)?,
+                J::Array(a) => a.get_mut(p.parse::<usize>().ok()?)?,
+                _ => return None,
+            };
+        }
+        Some(cur)
+    }
+    let mut all = vec![];
+    paths(base, &mut vec![], &mut all);
+    for path in all {
+        if path.is_empty() {
+            continue;
+        }
+        // removal
+        let mut d = base.clone();
+        let (last, parent) = path.split_last().unwrap();
+        if let Some(pv) = at(&mut d, parent) {
+            match pv {
+                J::Object(m) => {
+                    m.remove(last);
+                }
+                J::Array(a) => {
+                    if let Ok(i) = last.parse::<usize>() {
+                        a.remove(i);
+                    }
+                }
+                _ => {}
+            }
+            f(d.to_string());
+        }
+        let original = { let mut b = base.clone(); at(&mut b, &path).cloned() };
+        for repl in [J::Null, json!(1), json!("Nowhere"), json!(""), json!([]), json!({}), json!(true), json!([null]), json!({"kind": "OBJECT", "name": "Nowhere", "ofType": null}),
+            // existing types of every kind, wherever a type reference (or anything else) stands
+            json!({"kind": "INPUT_OBJECT", "name": "In", "ofType": null}), json!({"kind": "ENUM", "name": "K", "ofType": null}), json!({"kind": "UNION", "name": "U", "ofType": null}),
+            json!({"kind": "INTERFACE", "name": "Node", "ofType": null}), json!({"kind": "OBJECT", "name": "Query", "ofType": null}), json!({"kind": "SCALAR", "name": "Date", "ofType": null}),
+            json!({"kind": "LIST", "name": null, "ofType": {"kind": "SCALAR", "name": "Int", "ofType": null}}), json!("K"), json!("Query"), json!("In")] {
+            if original.as_ref() == Some(&repl) {
+                continue;
+            }
+            let mut d = base.clone();
+            if let Some(x) = at(&mut d, &path) {
+                *x = repl;
+                f(d.to_string());
+            }
+        }
+    }
+}
+
 #[derive(Clone, Copy, Debug, PartialEq, Eq, PartialOrd, Ord)]
 pub enum Via {
     Op,
     Schema,
     Loader,
     Config,
+    Introspection,
 }
 
 struct Ctx<'a> {
@@ -237,6 +343,7 @@ impl Ctx<'_> {
                 Via::Schema => run_schema_text(t),
                 Via::Loader => unreachable!(),
                 Via::Config => run_config_text(t),
+                Via::Introspection => run_introspection_text(t),
             })
             .map(|s| s.to_string())
         };
@@ -256,7 +363,8 @@ impl Ctx<'_> {
                 }
                 *self.outcomes.lock().unwrap().entry(format!("{via:?}:PANIC")).or_insert(0) += 1;
                 self.rep.report(Violation {
-                    key: format!("panic@{}", p.key()),
+                    // a schema read from an introspection result skips the schema check: its panics are findings of their own
+                    key: format!("{}panic@{}", if via == Via::Introspection { "introspection." } else { "" }, p.key()),
                     what: format!("panic at {} ({}) via {via:?} [{family}]", p.site, p.msg),
                     case: json!({"via": format!("{via:?}"), "family": family, "text": t}),
                 });
@@ -689,6 +797,30 @@ pub fn run(args: &Args) -> i32 {
             ctx.run(Via::Config, "config-shapes", t);
         }
         family_counts.insert("configs".into(), json!({"cases": ctx.evals.load(Ordering::Relaxed) - before}));
+        // ---------- introspection results: single edits of the JSON a conforming server gives for a small schema,
+        // in both spellings of the optional keys; prefixes of the text
+        let before = ctx.evals.load(Ordering::Relaxed);
+        {
+            let doc = rparse::parse_ts("type Query { a(x: In = {k: A}, l: [Int!]! = [1]): Node u: U @deprecated(reason: \"r\") }\ninterface Node { id: ID! }\ntype T implements Node { id: ID! k: K }\nunion U = T\nenum K { A B @deprecated }\ninput In { k: K = A n: In }\nscalar Date @specifiedBy(url: \"https://x\")\ndirective @tag(n: Int = 1) repeatable on FIELD | OBJECT\n").unwrap_or_else(|e| crate::report::machinery(&format!("C08 introspection base: {e}")));
+            let sch = crate::schema::Sch::new(&doc.defs);
+            for o in [crate::introspect::IntroOpts::default(), crate::introspect::IntroOpts { omit_nulls: true, meta_types: false, repeatable_key: true, input_deprecation: true, order: 1 }] {
+                let base = crate::introspect::introspection_json(&sch, o);
+                ctx.run(Via::Introspection, "introspection-base", &base.to_string());
+                let mut edits = vec![];
+                json_edits(&base, |e| edits.push(e));
+                if args.quick() {
+                    // every third edit of the second spelling
+                    if o.omit_nulls {
+                        edits = edits.into_iter().step_by(3).collect();
+                    }
+                }
+                par_for(edits.len(), args.threads, |i| ctx.run(Via::Introspection, "introspection-edits", &edits[i]));
+                let text = base.to_string();
+                let cuts: Vec<usize> = text.char_indices().map(|(i, _)| i).step_by(if args.quick() { 7 } else { 1 }).collect();
+                par_for(cuts.len(), args.threads, |i| ctx.run(Via::Introspection, "introspection-prefixes", &text[..cuts[i]]));
+            }
+        }
+        family_counts.insert("introspection".into(), json!({"cases": ctx.evals.load(Ordering::Relaxed) - before}));
         done.store(true, Ordering::Relaxed);
     });
 
@@ -699,7 +831,7 @@ pub fn run(args: &Args) -> i32 {
 
     let outcomes = ctx.outcomes.lock().unwrap().clone();
     // vacuity guard: the corpus must reach generation
-    for need in ["Op:generated", "Schema:schema-ok/generated", "Loader:loader:emitted", "Config:config:parsed"] {
+    for need in ["Op:generated", "Schema:schema-ok/generated", "Loader:loader:emitted", "Config:config:parsed", "Introspection:introspection:read/checked", "Introspection:introspection:rejected"] {
         if !outcomes.contains_key(need) {
             rep.report(Violation {
                 key: format!("machinery.vacuous.{need}"),
@@ -837,6 +969,7 @@ fn child_nesting() -> i32 {
             Via::Schema => run_schema_text(&text),
             Via::Loader => unreachable!(),
             Via::Config => run_config_text(&text),
+            Via::Introspection => run_introspection_text(&text),
         });
         if let Err(p) = r {
             println!(
@@ -861,6 +994,7 @@ pub fn replay(case: &J) -> i32 {
     let r = catch(|| match via {
         "Op" => run_op_text(t),
         "Schema" => run_schema_text(t),
+        "Introspection" => run_introspection_text(t),
         _ => run_config_text(t),
     });
     match r {
